@@ -6,6 +6,10 @@
 //               the WAL (possible only if offset allocation and append are not atomic: O-1)
 //   early-ack   the follower's ack of offset X is delivered before the sync callback of X advances the
 //               head offset (O-8 window)
+//   ctx-cancel  the caller's context of a write is cancelled at each stage of the pipeline (before admission,
+//               inside the WAL sync callback before the head advances, after the sync before any follower
+//               acked, after the quorum) for rf 1..5: an entry that is in the WAL and committed must be
+//               applied on the leader, in offset order, whatever became of its caller
 //   apply-gate  the application of offset n is held inside the KV layer (batch.Commit) while another
 //               follower's ack for n+1 is delivered: n+1 must be observed WAITING (the tracker applies the
 //               released requests one after the other under its mutex)
@@ -26,6 +30,7 @@ import (
 	"google.golang.org/grpc/metadata"
 
 	"github.com/oxia-db/oxia/common/concurrent"
+	"github.com/oxia-db/oxia/common/entity"
 	"github.com/oxia-db/oxia/proto"
 	"github.com/oxia-db/oxia/server"
 	"github.com/oxia-db/oxia/server/kv"
@@ -52,6 +57,8 @@ type gates struct {
 	cbEntered chan struct{}
 	ackDone   chan struct{}
 	cbForced  int32
+	// ctx-cancel: run by the wrapped sync callback of the next appended entry, right before the real callback
+	cbCancel func()
 	// apply-gate: the batch that puts holdKey is held in Commit; a Commit of the batch that puts watchKey is reported
 	holdKey        string
 	watchKey       string
@@ -171,6 +178,16 @@ func (w *gateWal) AppendAndSync(entry *proto.LogEntry, callback func(err error))
 		}
 	}
 	cb := callback
+	g.mu.Lock()
+	cancelInCb := g.cbCancel
+	g.cbCancel = nil
+	g.mu.Unlock()
+	if cancelInCb != nil {
+		cb = func(err error) {
+			cancelInCb()
+			callback(err)
+		}
+	}
 	if off == g.cbHold {
 		cb = func(err error) {
 			close(g.cbEntered)
@@ -300,10 +317,12 @@ type scenario struct {
 	holdAt    []int64 // o1 gates
 	earlyAck  int64   // offset for the early-ack gate, -1 = none
 	asyncPair bool    // issue the writes back to back through the async API (early-ack scenario)
+	ctxCancel bool    // every write has its own context, cancelled at a stage of the pipeline that cycles over the writes
 	applyGate bool    // hold the application of offset puts-2 while the ack for puts-1 of the other follower is delivered
 }
 
 type writeRes struct {
+	cancelled string // ctx-cancel scenario: the stage at which the caller's context was cancelled ("" = never)
 	key     string
 	err     error
 	stuck   bool
@@ -362,7 +381,7 @@ func runScenario(o *hx.Out, sc scenario, tmpRoot string, idx int) {
 	for i := uint32(1); i < sc.rf; i++ {
 		n := fmt.Sprintf("f%d", i)
 		f := &follower{name: n, acks: make(chan *proto.Ack, 1<<16), opened: make(chan struct{}), g: g, sendHold: -1, lastOut: -1,
-			ctx: context.Background(), manual: sc.applyGate}
+			ctx: context.Background(), manual: sc.applyGate || sc.ctxCancel}
 		if i == 1 && sc.earlyAck > 0 {
 			f.sendHold = sc.earlyAck - 1
 		}
@@ -430,7 +449,77 @@ func runScenario(o *hx.Out, sc scenario, tmpRoot string, idx int) {
 	results := make([]writeRes, 0, total)
 	var rmu sync.Mutex
 	var wg sync.WaitGroup
-	if sc.applyGate {
+	ctxSchedule := ""
+	if sc.ctxCancel {
+		stages := []string{"never", "before-admission", "in-sync-callback", "after-sync-before-quorum", "after-quorum"}
+		var fs []*follower
+		for i := uint32(1); i < sc.rf; i++ {
+			fs = append(fs, prov.followers[fmt.Sprintf("f%d", i)])
+		}
+		nextOff := int64(0) // offset the next admitted write gets
+		for i := 0; i < sc.puts; i++ {
+			key := fmt.Sprintf("w0-%d", i)
+			stage := stages[(i+idx)%len(stages)]
+			ctxSchedule += fmt.Sprintf("%s:%s ", key, stage)
+			ctx, cancel := context.WithCancel(context.Background())
+			switch stage {
+			case "before-admission":
+				cancel()
+			case "in-sync-callback":
+				g.mu.Lock()
+				g.cbCancel = cancel
+				g.mu.Unlock()
+			}
+			ch := make(chan writeRes, 1)
+			lc.Write(ctx, &proto.WriteRequest{Shard: &shard, Puts: []*proto.PutRequest{
+				{Key: key, Value: []byte(key)}, {Key: "shared", Value: []byte(key)}}},
+				concurrent.NewOnce(func(r *proto.WriteResponse) {
+					ch <- writeRes{key: key, version: r.Puts[0].Version.VersionId, sharedV: r.Puts[1].Version.VersionId,
+						sharedM: r.Puts[1].Version.ModificationsCount, status: r.Puts[0].Status}
+				}, func(err error) { ch <- writeRes{key: key, err: err} }))
+			// admitted? (the entry reaches the WAL and the head offset) - or refused at once
+			var early *writeRes
+			admitted := waitFor(func() bool {
+				if early == nil {
+					select {
+					case r := <-ch:
+						early = &r
+					default:
+					}
+				}
+				h, _, _ := server.VerifLeaderOffsets(lc)
+				return h >= nextOff || (early != nil && early.err != nil)
+			}, stuckTimeout)
+			h, _, _ := server.VerifLeaderOffsets(lc)
+			if admitted && h >= nextOff {
+				if stage == "after-sync-before-quorum" {
+					cancel()
+				}
+				off := nextOff
+				nextOff++
+				for _, f := range fs {
+					if waitFor(func() bool { return f.hasReceived(off) }, stuckTimeout) {
+						f.ack(off)
+					}
+				}
+			}
+			var r writeRes
+			if early != nil {
+				r = *early
+			} else {
+				select {
+				case r = <-ch:
+				case <-time.After(stuckTimeout):
+					r = writeRes{key: key, stuck: true}
+				}
+			}
+			if stage != "never" {
+				r.cancelled = stage
+			}
+			cancel()
+			results = append(results, r)
+		}
+	} else if sc.applyGate {
 		fa, fb := prov.followers["f1"], prov.followers["f2"]
 		n := int64(sc.puts - 2)
 		issue := func(i int) chan writeRes {
@@ -593,13 +682,16 @@ func runScenario(o *hx.Out, sc scenario, tmpRoot string, idx int) {
 	// ---- verdicts on the responses.  Every request puts its own key and the key "shared"; the DB hands out
 	// version ids from one counter in application order, so the request applied k-th sees versions 2k, 2k+1 and
 	// k earlier modifications of "shared".  Applied in offset order, once each, own response <=> k = its WAL offset.
-	nerr, nstuck := 0, 0
+	nerr, nstuck, ncancelled := 0, 0, 0
 	firstErr := ""
 	seenVersion := map[int64]string{}
 	for _, r := range results {
 		switch {
 		case r.stuck:
 			nstuck++
+		case r.err != nil && r.cancelled != "" && errors.Is(r.err, context.Canceled):
+			// the caller gave up: an error answer is acceptable, the entry (if admitted) must still be applied - checked below
+			ncancelled++
 		case r.err != nil:
 			nerr++
 			if firstErr == "" {
@@ -631,13 +723,41 @@ func runScenario(o *hx.Out, sc scenario, tmpRoot string, idx int) {
 	if nstuck > 0 {
 		viol("pipeline:write-stuck-with-healthy-quorum", fmt.Sprintf("%d of %d writes got no response within %v although every follower acknowledged everything it was sent", nstuck, total, stuckTimeout))
 	}
-	if nstuck == 0 && len(walOffsets) != total-nerr && nerr == 0 {
+	if nstuck == 0 && len(walOffsets) != total-nerr && nerr == 0 && ncancelled == 0 {
 		viol("pipeline:wal-gap", fmt.Sprintf("%d writes were answered, the WAL holds %d entries (offsets %v...)", total, len(walOffsets), head5(walOffsets)))
 	}
 	if nerr > 0 && len(walOffsets) < total-nerr {
 		viol("pipeline:wal-gap", fmt.Sprintf("%d writes succeeded, the WAL holds only %d entries", total-nerr, len(walOffsets)))
 	}
-	if nerr == 0 && nstuck == 0 {
+	if sc.ctxCancel {
+		// every entry of the WAL up to the commit offset must have been applied on the leader: readable, and with the
+		// version ids of the position it has in the log (two puts per entry, one version counter, offset order)
+		stageOf := map[string]string{}
+		for _, r := range results {
+			stageOf[r.key] = r.cancelled
+		}
+		for i, k := range walKeys {
+			off := walOffsets[i]
+			if off > commit {
+				continue
+			}
+			st, ver, rerr := readKey(lc, shard, k)
+			switch {
+			case rerr != nil:
+				viol("pipeline:committed-entry-never-applied", fmt.Sprintf("schedule [%s]: reading %s (WAL offset %d <= commit %d) failed: %v", ctxSchedule, k, off, commit, rerr))
+			case st != proto.Status_OK:
+				viol("pipeline:committed-entry-never-applied", fmt.Sprintf(
+					"schedule [%s] (stage = where the caller's context was cancelled): the request %s (cancelled: %q) is in the leader WAL at offset %d, commit offset is %d, head %d, but the leader DB answers %v for its key: the entry was committed and never applied",
+					ctxSchedule, k, stageOf[k], off, commit, head, st))
+			case ver != 2*off:
+				viol("pipeline:applied-out-of-order", fmt.Sprintf("schedule [%s]: %s sits at WAL offset %d but was applied as version %d (expected %d)", ctxSchedule, k, off, ver, 2*off))
+			}
+		}
+		if nstuck == 0 && nerr == 0 && (head != int64(len(walOffsets)-1) || commit != head) {
+			viol("pipeline:head-or-commit-lags-wal", fmt.Sprintf("schedule [%s]: WAL holds %d entries, head=%d commit=%d", ctxSchedule, len(walOffsets), head, commit))
+		}
+	}
+	if nerr == 0 && nstuck == 0 && ncancelled == 0 {
 		if head != int64(total-1) || commit != int64(total-1) {
 			viol("pipeline:head-or-commit-lags-wal", fmt.Sprintf("all %d writes answered, head=%d commit=%d", total, head, commit))
 		}
@@ -672,6 +792,35 @@ func runScenario(o *hx.Out, sc scenario, tmpRoot string, idx int) {
 	_ = lc.Close()
 	_ = kvInner.Close()
 	_ = wf.Close()
+}
+
+// readKey reads one key through the leader's public read path
+func readKey(lc server.LeaderController, shard int64, key string) (proto.Status, int64, error) {
+	ch := make(chan *entity.TWithError[*proto.GetResponse], 4)
+	lc.Read(context.Background(), &proto.ReadRequest{Shard: &shard, Gets: []*proto.GetRequest{{Key: key}}}, concurrent.ReadFromStreamCallback(ch))
+	var st proto.Status = -1
+	var ver int64 = -1
+	deadline := time.After(stuckTimeout)
+	for {
+		select {
+		case x, ok := <-ch:
+			if !ok {
+				if st == -1 {
+					return st, ver, errors.New("no answer")
+				}
+				return st, ver, nil
+			}
+			if x.Err != nil {
+				return st, ver, x.Err
+			}
+			st = x.T.Status
+			if x.T.Version != nil {
+				ver = x.T.Version.VersionId
+			}
+		case <-deadline:
+			return st, ver, errors.New("read timed out")
+		}
+	}
 }
 
 func head5(l []int64) []int64 {
@@ -711,6 +860,10 @@ func main() {
 		x := int64(1 + r.Intn(5))
 		run(scenario{name: "early-ack", rf: 2, syncData: true, writers: 1, puts: int(x) + 1, earlyAck: x, asyncPair: true})
 		// forced: offset n is being applied while the other follower acknowledges n+1
+		// forced: the caller's context is cancelled at every stage of the pipeline, rf 1..5
+		for rf := uint32(1); rf <= 5; rf++ {
+			run(scenario{name: "ctx-cancel", rf: rf, syncData: r.Bool(), writers: 1, puts: 6 + r.Intn(6), earlyAck: -1, ctxCancel: true})
+		}
 		run(scenario{name: "apply-gate", rf: 3, syncData: r.Bool(), writers: 1, puts: 2 + r.Intn(4), earlyAck: -1, applyGate: true})
 	}
 }
